@@ -7,6 +7,7 @@ import (
 	"fmt"
 	"os"
 	"sync"
+	"time"
 
 	"golang.org/x/sys/unix"
 )
@@ -45,6 +46,7 @@ func NativeTTY() {
 	t.mu.Unlock()
 	// fresh cooked-mode termios and window size for every session
 	unix.IoctlSetTermios(int(t.slave.Fd()), unix.TCSETS, &t.initial)
+	termiosAtStart = t.initial
 	cols, rows := 80, 24
 	if WinsizeHook != nil {
 		cols, rows = WinsizeHook()
@@ -136,4 +138,58 @@ func NativeOutput() string {
 func NativeTermios() *unix.Termios {
 	tio, _ := unix.IoctlGetTermios(int(tty.slave.Fd()), unix.TCGETS)
 	return tio
+}
+
+var termiosAtStart unix.Termios
+
+func nativeApplyTermios() {
+	if tty == nil {
+		NativeTTY()
+	}
+	fd := int(tty.slave.Fd())
+	t, err := unix.IoctlGetTermios(fd, unix.TCGETS)
+	if err != nil {
+		return
+	}
+	// only bits that every tty accepts unchanged are taken from the vector
+	t.Iflag = (t.Iflag &^ 0x3fff) | (Uint32("tio.iflag") & 0x3fff)
+	t.Oflag = (t.Oflag &^ 0x5) | (Uint32("tio.oflag") & 0x5)
+	t.Lflag = (t.Lflag &^ 0x8fff) | (Uint32("tio.lflag") & 0x8fff)
+	cf := Uint32("tio.cflag")
+	t.Cflag = (t.Cflag &^ 0x330) | (cf & 0x330)
+	t.Cc[unix.VMIN] = Byte("tio.vmin")
+	t.Cc[unix.VTIME] = Byte("tio.vtime")
+	unix.IoctlSetTermios(fd, unix.TCSETS, t)
+	if t2, err := unix.IoctlGetTermios(fd, unix.TCGETS); err == nil {
+		termiosAtStart = *t2
+	}
+}
+
+func nativeTermiosRestored() bool {
+	if tty == nil {
+		return true
+	}
+	t, err := unix.IoctlGetTermios(int(tty.slave.Fd()), unix.TCGETS)
+	if err != nil {
+		return false
+	}
+	return *t == termiosAtStart
+}
+
+// nativeDrain waits until the terminal goroutine has consumed the output written so far.
+func nativeDrain() {
+	if tty == nil {
+		return
+	}
+	last := -1
+	for i := 0; i < 50; i++ {
+		time.Sleep(5 * time.Millisecond)
+		tty.mu.Lock()
+		n := tty.out.Len()
+		tty.mu.Unlock()
+		if n == last {
+			return
+		}
+		last = n
+	}
 }
